@@ -74,24 +74,37 @@ type Replay struct {
 }
 
 // RunOnce executes scenario s with the given tapes inside a fresh bubble.
+//
+// The bubble is entered from a helper goroutine: when the race detector has
+// reported something during the run, testing fails the bubble's T and calls
+// FailNow on the outer T, which must not unwind the worker loop.
 func RunOnce(t *testing.T, s *Scenario, plan, sched *simrt.Tape) (out *Outcome) {
-	defer func() {
-		if r := recover(); r != nil {
-			msg := fmt.Sprint(r)
-			if strings.Contains(msg, "deadlock:") && out != nil {
-				return // end-of-bubble: stranded goroutines, already accounted
-			}
-			if strings.Contains(msg, "deadlock:") {
-				out = &Outcome{Violation: &simrt.Violation{Kind: "harness-bubble-deadlock", Detail: msg}}
-				return
-			}
-			panic(r)
-		}
-	}()
 	p := s.Gen(plan)
-	synctest.Test(t, func(t *testing.T) {
-		out = s.Exec(p, sched)
-	})
+	done := make(chan struct{})
+	var fatal any
+	go func() {
+		defer close(done)
+		defer func() {
+			if r := recover(); r != nil {
+				msg := fmt.Sprint(r)
+				if strings.Contains(msg, "deadlock:") && out != nil {
+					return // end-of-bubble: stranded goroutines, already accounted
+				}
+				if strings.Contains(msg, "deadlock:") {
+					out = &Outcome{Violation: &simrt.Violation{Kind: "harness-bubble-deadlock", Detail: msg}}
+					return
+				}
+				fatal = r
+			}
+		}()
+		synctest.Test(t, func(t *testing.T) {
+			out = s.Exec(p, sched)
+		})
+	}()
+	<-done
+	if fatal != nil {
+		panic(fatal)
+	}
 	return out
 }
 
